@@ -11,6 +11,7 @@ import Yv.Model.LR0L
 import Yv.Model.SplitA
 import Yv.Model.ListingDrv
 import Yv.Model.Subst
+import Yv.Model.Emit
 import Yv.Model.DP
 import Yv.Model.GenTab
 import Yv.Model.Digraph
@@ -42,6 +43,7 @@ def hexDecode (s : String) : ByteArray :=
 
 structure CaseAcc where
   id : String := ""
+  eData : Emit.Data := { ids := [], syms := [], rows := [], need := false, act := [], off := [], check := [], actdef := [], gotodef := [], errC := 0, accC := 0, rules := [] }
   refuse : Option String := none
   nSyms : Nat := 0
   nT : Nat := 0
@@ -473,6 +475,39 @@ partial def loop (inp out : IO.FS.Stream) (a : CaseAcc) (x : XAcc := {}) : IO Un
         | none => out.putStrLn s!"M {tag} PANIC"
         | some txt => out.putStrLn s!"M {tag} {if txt.isEmpty then "-" else hexEncode txt}"
     out.putStrLn "SEND"
+    loop inp out {}
+  | "ECASE" :: id :: _ => loop inp out { id := id }
+  | "EID" :: nm :: t :: v :: _ =>
+    let hx (t : String) : String := if t == "-" then "" else
+      match String.fromUTF8? (hexDecode t) with | some x => x | none => "?"
+    loop inp out { a with eData := { a.eData with ids := a.eData.ids ++ [⟨hx nm, t == "1", v.toInt!⟩] } }
+  | "ESYM" :: i :: nt :: v :: nm :: _ =>
+    let hx (t : String) : String := if t == "-" then "" else
+      match String.fromUTF8? (hexDecode t) with | some x => x | none => "?"
+    loop inp out { a with eData := { a.eData with syms := a.eData.syms ++ [⟨i.toNat!, nt == "1", v.toInt!, hx nm⟩] } }
+  | "EROW" :: _ :: cells => loop inp out { a with eData := { a.eData with rows := a.eData.rows ++ [cells.map String.toInt!] } }
+  | "ENEED" :: b :: _ => loop inp out { a with eData := { a.eData with need := b == "1" } }
+  | "EARR" :: nm :: xs =>
+    let v := xs.map String.toInt!
+    let d := a.eData
+    let d := if nm == "act" then { d with act := v } else if nm == "off" then { d with off := v }
+      else if nm == "check" then { d with check := v } else if nm == "actdef" then { d with actdef := v }
+      else { d with gotodef := v }
+    loop inp out { a with eData := d }
+  | "ECODES" :: e :: c :: _ => loop inp out { a with eData := { a.eData with errC := e.toInt!, accC := c.toInt! } }
+  | "ERULE" :: _ :: l :: _ :: rs =>
+    let hx (t : String) : String := if t == "-" then "" else
+      match String.fromUTF8? (hexDecode t) with | some x => x | none => "?"
+    loop inp out { a with eData := { a.eData with rules := a.eData.rules ++ [⟨hx l, rs.map hx⟩] } }
+  | "EEND" :: _ => do
+    out.putStrLn s!"ECASE {a.id}"
+    if a.refuse.isNone then
+      for variant in ["gop", "god", "ts"] do
+        for (k, t) in Emit.parts a.eData variant do
+          match t with
+          | none => out.putStrLn s!"M EP {variant} {k} SKIP"
+          | some txt => out.putStrLn s!"M EP {variant} {k} {if txt.isEmpty then "-" else hexEncode txt}"
+    out.putStrLn "EEND"
     loop inp out {}
   | "FCASE" :: id :: _ => loop inp out { id := id }
   | "SRC" :: hex :: _ => do processF out a.id hex; loop inp out {}
